@@ -516,6 +516,7 @@ func (self *AofFile) WriteLockData(lock *AofLock) error {
 
 func (self *AofFile) Flush() error {
 	if self.file != nil && self.windex > 0 {
+		verifYield(verifPointAofFlushStart)
 		for tn := 0; tn < self.windex; {
 			n, err := self.file.Write(self.wbuf[tn:self.windex])
 			if err != nil {
